@@ -91,6 +91,12 @@ CHECKS = {
         "text": "For every day on which a piecewise_* parameter changes, every schedule in force is presented to TLC in raw form (the law) and in parsed form (the implementation's arrays): TLC checks coverage of the real line with strictly increasing thresholds, that thresholds / rates / progression factors / generated intercepts are what the raw entries determine, and, from the coefficients alone and hence for all real arguments, that the income-tax schedule is zero up to the allowance, continuous, non-decreasing, convex and bounded by the top rate and that the solidarity surcharge is continuous, non-decreasing and at most its nominal rate times the tax plus one cent. The real evaluator (piecewise_polynomial and the tariff helper) is compared with the exact value at every threshold, +-1 ulp, mid-points and extremes.",
         "note": "All change days of piecewise parameters since 1980 (quick: latest 30 + seeded earlier ones); exact decimals with 1e-12 (parser) and 1e-9 (evaluation) relative tolerance for binary floating point; shape lemmas for degree <= 2.",
     },
+    "C19": {
+        "level": "model_checking",
+        "technique": "TLA+ regime machine along the wage axis (Contrib.tla) model-checked on abstract parameters (MC_Contrib); wage sweeps of the real contribution rules validated step by step by TLC (Trace_Contrib)",
+        "text": "Contrib.tla treats the gross wage as a behaviour and states the statutory shape as step properties: non-negative, zero for marginal employment, non-decreasing, constant above the assessment ceiling, no jump except at the mini-job threshold (the transition-zone contributions meet the regular ones at the upper boundary), employee + employer = total in the zone. TLC proves regime order and boundary inclusiveness on abstract parameters; for every change date of the contribution parameters and east/west x children x age branch one vectorised run over a wage grid plus every statutory boundary +-1 cent is validated step by step, including that the observed mini-job / transition-zone flags equal the regime.",
+        "note": "Change dates since 2015 (quick: latest 4 + seeded 4; thorough since 2003-04), 2-4 branches each; boundaries read from the environment (C07 binds their resolution); slope bound 1 for NoJump; regular employees only.",
+    },
 }
 
 NOT_APPLICABLE = {}
